@@ -214,9 +214,11 @@ func TestInterrupt(t *testing.T) {
 // (dependencies finished, split < chunks < join, preflights) are checked at
 // every job start of runs that are interrupted while jobs are in flight, in
 // particular jobs that are still alive and have written their outputs (a
-// split job its _stage_defs) but not yet their completion marker.
+// split job its _stage_defs) but not yet their completion marker, and jobs
+// of an attempt that was given up and re-run which report their completion
+// after all (it must not count for the attempt that is running now).
 func TestInterruptOrder(t *testing.T) {
-	interruptTest(t, "C02", []string{"alive-after-outs", "alive-after-outs", "alive", "finished-unnoticed", "dead-after-outs", "queued"})
+	interruptTest(t, "C02", []string{"alive-after-outs", "alive-after-outs", "alive", "finished-unnoticed", "dead-after-outs", "queued", "zombie"})
 }
 
 // TestStaleAttempt: C11 - a job whose attempt was reset at a restart is still
